@@ -87,6 +87,11 @@ func Verify(blob []byte, params VerifyParams) (*VerifiedBlob, error) {
 	if err := checkPlistHashes(sig.Directories, pksig.SignerInfo, computedHashes); err != nil {
 		return nil, fmt.Errorf("verifying cd hashes: plist: %w", err)
 	}
+	// alternate code directories are bound to the signature only through the signed cdhashes list (count and
+	// position); without it nothing vouches for them, yet the one with the strongest hash decides the page hashes
+	if len(sig.Directories) > 1 && !pksig.SignerInfo.AuthenticatedAttributes.Exists(AttrCodeDirHashPlist) {
+		return nil, errors.New("verifying cd hashes: alternate code directories without a signed cdhashes list")
+	}
 	// mark proprietary certificate extensions as handled so it doesn't fail the chain
 	for _, cert := range pksig.Intermediates {
 		MarkHandledExtensions(cert)
